@@ -121,7 +121,7 @@ def kron_cases(tier, seed):
         add(fs, forms=["v", "c", "m2F", "m3C", "I"] if quick else None, compose=not quick)
     if not quick:
         lean = ["v", "c", "m2F", "m3C", "I"]
-        for fs in itertools.product(_alphabet(SHAPES2, KINDS5), repeat=4):
+        for fs in itertools.product(_alphabet(SHAPES2, "drl"), repeat=4):
             add(fs, forms=lean, compose=False)
         for fs in itertools.product(_alphabet([(2, 2), (2, 3), (3, 2), (3, 3)], "dl"), repeat=4):
             add(fs, forms=["v", "m2F", "I"], compose=False)
@@ -460,8 +460,8 @@ def fastdiag_cases(tier, seed):
 # ------------------------------------------------------------------------------------------------
 
 def all_cases(tier, seed):
-    gens = [("null/identity/diagonal", simple_cases), ("kron", kron_cases), ("block", block_cases),
-            ("blockdiag", blockdiag_cases), ("subspace", subspace_cases), ("tprod", tprod_cases),
+    gens = [("null/identity/diagonal", simple_cases), ("subspace", subspace_cases), ("kron", kron_cases),
+            ("block", block_cases), ("blockdiag", blockdiag_cases), ("tprod", tprod_cases),
             ("modek", modek_cases), ("applykron", applykron_cases), ("csr-rows", csr_cases),
             ("make_solver", make_solver_cases), ("kron_solver", kron_solver_cases), ("fastdiag", fastdiag_cases)]
     out = []
